@@ -113,6 +113,10 @@ func spellings(c *Ctx, canon string, cwd string, k int, exhaustive bool) []spell
 		}
 		if i := strings.Index(s.text, ":"); i > 0 && !strings.Contains(s.text[:i], "/") {
 			out = append(out, spelling{strings.ToUpper(s.text[:i]) + s.text[i:], append(append([]string{}, s.rewrites...), "upper-case scheme")})
+			// the same path written with the characters themselves instead of their escapes (as a plain path always is)
+			if lit := strings.NewReplacer("%20", " ", "%C3%A9", "é").Replace(s.text); lit != s.text {
+				out = append(out, spelling{lit, append(append([]string{}, s.rewrites...), "literal characters")})
+			}
 		}
 		if !strings.Contains(s.text, "#") {
 			out = append(out, spelling{s.text + "#/definitions/c", append(append([]string{}, s.rewrites...), "append fragment")})
@@ -160,8 +164,10 @@ func classifyC11(s spelling) string {
 
 func runC11(c *Ctx) {
 	cwd, _ := os.Getwd()
-	c.Res.Rule = "equivalent spellings of canonical root locations (file, http, https; relative ones against the working directory) generated by up to 3 (quick) / 4 (thorough) rewrites: insert ./, insert x/../, double an inner slash, path vs file:/ vs file:///, upper-case scheme, append fragment, append query (files); normalizeBase compared across spellings (hook) and end to end through ExpandSpec (loader arguments and output); non-trivial = spelling with at least one rewrite; distinct by spelling"
-	canons := []string{"file:///v/r/root.json", "file://" + cwd + "/vtmp/sub/root.json", "http://h.example/api/v1/root.json", "https://h.example/root.json", "file:///root.json", "http://h.example:8080/a/b/c/root.json"}
+	c.Res.Rule = "equivalent spellings of canonical root locations (file, http, https; relative ones against the working directory) generated by up to 3 (quick) / 4 (thorough) rewrites: insert ./, insert x/../, double an inner slash, path vs file:/ vs file:///, upper-case scheme, literal characters instead of escapes, append fragment, append query (files); normalizeBase compared across spellings (hook) and end to end through ExpandSpec (loader arguments and output); non-trivial = spelling with at least one rewrite; distinct by spelling"
+	canons := []string{"file:///v/r/root.json", "file://" + cwd + "/vtmp/sub/root.json", "http://h.example/api/v1/root.json", "https://h.example/root.json", "file:///root.json", "http://h.example:8080/a/b/c/root.json",
+		// directories whose names need escapes in a URL
+		"file:///v/api%20docs/root.json", "https://h.example/api%20docs/%C3%A9/root.json"}
 	k := c.N(3, 4)
 	for _, canon := range canons {
 		want := spec.VerifNormalizeBase(canon)
